@@ -9,6 +9,8 @@ use trv_core::inner::{CallStatus, GatedInner, Out, Req};
 use trv_core::svcx::{self, Action, Counts, Opts, Scenario, Viol};
 use trv_core::world::{drive_ready, CallerFut, Outcome, Phase, PollResult, World};
 
+mod threads;
+
 trv_core::install_clock_seam!();
 
 struct Co {
@@ -292,6 +294,26 @@ fn main() {
         eprintln!("p-coalesce serves C11");
         std::process::exit(2);
     }
+    if let Some(p) = cli.replay.clone() {
+        let v = trv_core::load_replay(&p);
+        if let Some(ch) = v["history"]["thread_schedule"].as_array() {
+            let choices: Vec<usize> = ch.iter().filter_map(|x| x.as_u64().map(|u| u as usize)).collect();
+            match threads::replay(v["config"].as_str().unwrap_or(""), &choices, v["kind"].as_str().unwrap_or("")) {
+                Some(true) => {
+                    println!("VIOLATION property=C11 replay={p}");
+                    std::process::exit(1);
+                }
+                Some(false) => {
+                    println!("replay: the recorded violation does not occur on the current tree");
+                    std::process::exit(0);
+                }
+                None => {
+                    eprintln!("MACHINERY no thread configuration with that label");
+                    std::process::exit(2);
+                }
+            }
+        }
+    }
     if let Some(p) = cli.replay {
         let mut c = configs(Tier::Quick);
         c.extend(configs(Tier::Thorough));
@@ -317,5 +339,11 @@ fn main() {
             svcx::validate_abstraction(&small, 6, &ex3.fingerprints, ex3.depth_completed, &mut rep);
         }
     }
+    // thread level: all interleavings of the in-flight map's critical sections
+    threads::run(tier, &mut rep);
+    rep.require_witness("thread_schedules_with_preemption");
+    rep.require_witness("thread_config_with_several_outcomes");
+    rep.require_witness("threads_shared_one_inner_call");
+    rep.assumptions.push("thread level (engine B): scheduling points are the lock acquisitions of the in-flight map (repo feature verif-hooks), one point inside every inner call and one per fruitless poll of a waiter; sequentially consistent memory".into());
     trv_core::finish(rep);
 }
